@@ -119,3 +119,75 @@ RUNTIME = {
     "best_match": {"gen": gen_best, "call": call_best, "check": check_best, "bounds": "1-3 adapters of 3 types, reads of length <= 40 with planted (possibly reverse-complemented) adapter pieces"},
     "revcomp": {"gen": gen_rc, "call": call_rc, "check": check_rc, "bounds": "1-3 adapters, 1-4 reads, --times 1 or 2, with and without the name suffix"},
 }
+
+
+# ------------------------------------------------------------------------------ C20: the report's histogram equals the tally
+def gen_hist(rng):
+    kind = rng.choice(["back", "front", "anywhere"])
+    seq = rng.choice(["ACGTACGTAC", "TTGGCCAATTG", "GATCGATC"])
+    reads = []
+    for _ in range(rng.randint(3, 12)):
+        r = "".join(rng.choice("ACGT") for _ in range(rng.choice([0, 5, 12, 20])))
+        a = seq
+        if rng.random() < 0.6:                      # one edit inside the adapter copy (substitution, deletion or insertion)
+            p = rng.randint(1, len(a) - 2)
+            a = rng.choice([a[:p] + rng.choice("ACGT") + a[p + 1:], a[:p] + a[p + 1:], a[:p] + rng.choice("ACGT") + a[p:]])
+        if rng.random() < 0.3:
+            a = a[: rng.randint(3, len(a))] if kind != "front" else a[-rng.randint(3, len(a)):]
+        reads.append(r + a + ("" if rng.random() < 0.5 else "".join(rng.choice("ACGT") for _ in range(rng.randint(1, 6)))) if kind != "front" else a + r)
+    return {"kind": kind, "sequence": seq, "rate": rng.choice([0.1, 0.2, 0.25]), "reads": reads, "times": rng.choice([1, 2])}
+
+
+def call_hist(inp):
+    from dnaio import SequenceRecord
+    from cutadapt.modifiers import AdapterCutter
+    from cutadapt.info import ModificationInfo
+    from cutadapt.report import Statistics
+    from cutadapt.adapters import BackAdapter, FrontAdapter, AnywhereAdapter, RemoveBeforeMatch
+    cls = {"back": BackAdapter, "front": FrontAdapter, "anywhere": AnywhereAdapter}[inp["kind"]]
+    ad = cls(inp["sequence"], max_errors=inp["rate"], min_overlap=3, name="a")
+    cutter = AdapterCutter([ad], times=inp["times"])
+    tally = {}
+    total_bp = 0
+    for i, s in enumerate(inp["reads"]):
+        rec = SequenceRecord(f"r{i}", s, "I" * len(s))
+        total_bp += len(s)
+        info = ModificationInfo(rec)
+        cutter(rec, info)
+        for m in info.matches:
+            end = "five_prime_end" if isinstance(m, RemoveBeforeMatch) else "three_prime_end"
+            key = (end, m.removed_sequence_length(), m.errors)
+            tally[key] = tally.get(key, 0) + 1
+    st = Statistics().collect(len(inp["reads"]), total_bp, None, [cutter], [])
+    a = st._adapter_statistics_as_json(st.adapter_stats[0][0], len(inp["reads"]), 0.5)
+    rep = {}
+    for end in ("five_prime_end", "three_prime_end"):
+        if a[end] is None:
+            continue
+        rep[end] = {"matches": a[end]["matches"], "rows": [[row["len"], row["counts"]] for row in a[end]["trimmed_lengths"]]}
+    return {"tally": [[k[0], k[1], k[2], v] for k, v in tally.items()], "report": rep, "total_matches": a["total_matches"]}
+
+
+def check_hist(inp, res, err):
+    if err:
+        return ["no_raise:" + err]
+    bad = []
+    want = {}
+    for end, length, errors, n in res["tally"]:
+        want.setdefault(end, {}).setdefault(length, {})[errors] = n
+    got = {}
+    for end, e in res["report"].items():
+        for length, counts in e["rows"]:
+            for k, n in enumerate(counts):
+                if n:
+                    got.setdefault(end, {}).setdefault(length, {})[k] = n
+    if got != want:
+        bad.append(f"C20:histogram by removed length and error count in the report {got} != tally of the applied matches {want}")
+    n_all = sum(x[3] for x in res["tally"])
+    if res["total_matches"] != n_all or sum(e["matches"] for e in res["report"].values()) != n_all:
+        bad.append(f"C20:reported number of matches {res['total_matches']} != applied matches {n_all}")
+    return bad
+
+
+RUNTIME["report_histogram"] = {"gen": gen_hist, "call": call_hist, "check": check_hist,
+                               "bounds": "one adapter (3 types), 3-12 reads with exact, edited (one substitution/insertion/deletion) and partial copies, rates 0.1/0.2/0.25"}
